@@ -70,13 +70,17 @@ def parameters(cfg):
     d_adv, src = advertised_distance(enc, cfg)
     try:
         d_true = Gd.min_distance(Gm, n)
-    except ValueError as e:
-        yield "distance_computable", False, str(e)
+    except ValueError:
+        # min(k, n-k) > 24: outside the exact kernel's reach (2^25 words and more); the distance clauses are NOT claimed for this
+        # configuration (for BCH codes the designed distance rests on the root clauses of C03.cyclic_structure and the BCH bound)
         return
     if d_adv is None:
         yield "advertises_distance", True, f"{src}; true d = {d_true} (nothing to compare)"
     else:
-        yield "distance_at_least_advertised", d_true >= d_adv, f"true d = {d_true}, advertised d = {d_adv} ({src})"
+        # CyclicCodeEncoder.minimum_distance() has two branches: exact enumeration for k <= 12, weight of g above (an upper bound:
+        # recorded known finding); the clause is named after the branch so that the finding is tied to that call site only
+        branch = ".cyclic_k_gt_12_returns_weight_of_g" if cfg.family in ("cyclic", "cyclic_h") and k > 12 else ""
+        yield "distance_at_least_advertised" + branch, d_true >= d_adv, f"true d = {d_true}, advertised d = {d_adv} ({src})"
         if cfg.family in EXACT:
             yield "distance_exact", d_true == d_adv, f"true d = {d_true}, documented exact d = {d_adv} ({src})"
     t_adv = getattr(enc, "error_correction_capability", None)
